@@ -76,9 +76,12 @@ def driveOk (u : UState) : List String → UState × String
     if u.stack == "wire1" then ({ u with log := [] }, "log " ++ showLog u.log) else (u, "skip")
   | ["badwrite", off, d] =>
     match off.toInt?, Hex.decodeTok d with
-    | some o, some _ =>
-      -- the refused PATCH still reached the backend as a resume at that offset (the upload itself goes on)
-      ({ u with log := if u.stack == "wire1" then u.log ++ [BOp.resume o] else u.log }, "err RANGE_INVALID")
+    | some o, some data =>
+      -- the refused PATCH still reached the backend as a resume at that offset (the upload itself goes on);
+      -- the harness repeats a Write that was refused: when the data exceeds the chunk size it is Write
+      -- itself that sends the PATCH (twice then), otherwise Close sends it (once)
+      let rs := if data.length > u.w.chunkSize then [BOp.resume o, BOp.resume o] else [BOp.resume o]
+      ({ u with log := if u.stack == "wire1" then u.log ++ rs else u.log }, "err RANGE_INVALID")
     | _, _ => (u, "bad-op")
   | ["badcommit", off, d, _] =>
     match off.toInt?, Hex.decodeTok d with
